@@ -176,7 +176,10 @@ theorem scan_quotient_imports_sup (mt : Str → Str → Bool) (base rootName : S
   ⟨(Pta.ScanLimit.scan_quotient_lemma mt base rootName mp entries o g g0 hg hg0).2.2.1 a b,
    (Pta.ScanLimit.scan_quotient_lemma mt base rootName mp entries o g g0 hg hg0).2.2.2.1 a b⟩
 
-/-- import edges, exactly, in terms of the import records `R` handed to the constructor (no hypothesis) -/
+/-- import edges, exactly, in terms of the import records `R` handed to the constructor (no hypothesis).
+    Since the repair of `_initialise` (`_is_import_between_known_modules`) only the records whose importee is a node of
+    the FULL graph count: a record whose importee is not a module no longer produces an edge onto the module its name
+    is truncated to. (The importer of a record is always a node.) -/
 theorem scan_imports_exact (mt : Str → Str → Bool) (base rootName : Str) (mp : List Str) (entries : List Entry)
     (o : ScanOptions) (g g0 : PGraph Str)
     (hg : generateGraph mt base rootName mp entries o = .ok g)
@@ -184,24 +187,23 @@ theorem scan_imports_exact (mt : Str → Str → Bool) (base rootName : Str) (mp
     (R : List ImportRec) (hR : scanRetained mt base rootName mp entries o = .ok R) (a b : Str) :
     (a, b) ∈ g.importPairs ↔
       a ≠ b ∧ isHierPair a b = false ∧ a ∈ g.nodes ∧ b ∈ g.nodes ∧
-      ∃ i ∈ R, a = flattenNode (shiftedLimit o mp) i.importer ∧ b = flattenNode (shiftedLimit o mp) i.importee :=
-  ((Pta.ScanLimit.scan_quotient_lemma mt base rootName mp entries o g g0 hg hg0).2.2.2.2 R hR).1 a b
+      ∃ i ∈ R, i.importee ∈ g0.nodes ∧
+        a = flattenNode (shiftedLimit o mp) i.importer ∧ b = flattenNode (shiftedLimit o mp) i.importee :=
+  (Pta.ScanLimit.scan_quotient_lemma mt base rootName mp entries o g g0 hg hg0).2.2.2.2.1 R hR a b
 
-/-- C09 for scans, import edges: if no import is dangling (`danglingFree`: every importee handed to the constructor is
-    a node of the full graph), then `a` imports `b` in the limited graph exactly when some module flattening to `a`
-    imports some module flattening to `b` in the full graph, `a ≠ b`, and `(a, b)` is not a parent→child pair
-    (such a pair is the hierarchy edge, see `collision_iff` for when this happens) -/
+/-- C09 for scans, import edges (no side condition since the repair of the dangling-import defect): `a` imports `b` in
+    the limited graph exactly when some module flattening to `a` imports some module flattening to `b` in the full
+    graph, `a ≠ b`, and `(a, b)` is not a parent→child pair (such a pair is the hierarchy edge, see `collision_iff`
+    for when this happens) -/
 theorem scan_quotient_imports (mt : Str → Str → Bool) (base rootName : Str) (mp : List Str) (entries : List Entry)
     (o : ScanOptions) (g g0 : PGraph Str)
     (hg : generateGraph mt base rootName mp entries o = .ok g)
-    (hg0 : generateGraph mt base rootName mp entries o.noLimit = .ok g0)
-    (R : List ImportRec) (hR : scanRetained mt base rootName mp entries o = .ok R)
-    (hnd : danglingFree R g0 = true) (a b : Str) :
+    (hg0 : generateGraph mt base rootName mp entries o.noLimit = .ok g0) (a b : Str) :
     (a, b) ∈ g.importPairs ↔
       a ≠ b ∧ isHierPair a b = false ∧
       ∃ u v, (u, v) ∈ g0.importPairs ∧ a = flattenNode (shiftedLimit o mp) u ∧ b = flattenNode (shiftedLimit o mp) v := by
   have h := Pta.ScanLimit.scan_quotient_lemma mt base rootName mp entries o g g0 hg hg0
-  exact ⟨fun hab => ⟨(h.2.2.2.1 a b hab).1, (h.2.2.2.1 a b hab).2, (h.2.2.2.2 R hR).2 hnd a b hab⟩, h.2.2.1 a b⟩
+  exact ⟨fun hab => ⟨(h.2.2.2.1 a b hab).1, (h.2.2.2.1 a b hab).2, h.2.2.2.2.2 a b hab⟩, h.2.2.1 a b⟩
 
 /-- `isHierPair` is the immediate-parent relation on dotted names -/
 theorem isHierPair_spec (s e : Str) : isHierPair s e = true ↔ ∃ t, '.' ∉ t ∧ e = s ++ '.' :: t :=
@@ -238,18 +240,18 @@ theorem importers_are_files (mt : Str → Str → Bool) (base rootName : Str) (m
     ∀ i ∈ R, ∃ f ∈ (scanParsed mt base rootName mp entries o).files, i.importer = f.1 :=
   Pta.ScanLimit.scan_importer_file mt base rootName mp entries o R hR
 
-/-- C09 for scans, the property text verbatim: no dangling import and no import from a module into its own subtree
+/-- C09 for scans, the property text verbatim: no import from a module into its own subtree
     (e.g. importers are leaves: no `x.py` next to a directory `x`). Then `a` imports `b` in the limited graph exactly
-    when some module truncating to `a` imports some module truncating to `b` and `a ≠ b`. -/
+    when some module truncating to `a` imports some module truncating to `b` and `a ≠ b`.
+    (Before the repair this also needed `danglingFree`.) -/
 theorem scan_quotient_imports_clean (mt : Str → Str → Bool) (base rootName : Str) (mp : List Str) (entries : List Entry)
     (o : ScanOptions) (g g0 : PGraph Str)
     (hg : generateGraph mt base rootName mp entries o = .ok g)
     (hg0 : generateGraph mt base rootName mp entries o.noLimit = .ok g0)
-    (R : List ImportRec) (hR : scanRetained mt base rootName mp entries o = .ok R)
-    (hnd : danglingFree R g0 = true) (hdown : noDownwardImports g0 = true) (a b : Str) :
+    (hdown : noDownwardImports g0 = true) (a b : Str) :
     (a, b) ∈ g.importPairs ↔
       a ≠ b ∧ ∃ u v, (u, v) ∈ g0.importPairs ∧ a = flattenNode (shiftedLimit o mp) u ∧ b = flattenNode (shiftedLimit o mp) v := by
-  rw [scan_quotient_imports mt base rootName mp entries o g g0 hg hg0 R hR hnd a b]
+  rw [scan_quotient_imports mt base rootName mp entries o g g0 hg hg0 a b]
   constructor
   · rintro ⟨h1, -, h3⟩; exact ⟨h1, h3⟩
   · rintro ⟨h1, u, v, huv, rfl, rfl⟩
@@ -301,7 +303,8 @@ example : generateGraph mt0 (S "/r") (S "r") [S "app"] ents o1 = .ok (run ents [
     generateGraph mt0 (S "/r") (S "r") [S "app"] ents o1.noLimit = .ok (run ents [S "app"] o1.noLimit) ∧
     scanRetained mt0 (S "/r") (S "r") [S "app"] ents o1 = .ok (recs ents [S "app"] o1) := ⟨by rfl, by rfl, by rfl⟩
 example : shiftedLimit o1 [S "app"] = some 2 := rfl
--- the hypotheses of `scan_quotient_imports` and `scan_quotient_imports_clean`
+-- the hypothesis of `scan_quotient_imports_clean` (`noDownwardImports`), two sufficient conditions for it, and
+-- `danglingFree` (needed before the repair, now only documentation)
 set_option maxRecDepth 100000 in
 example : danglingFree (recs ents [S "app"] o1) (run ents [S "app"] o1.noLimit) = true ∧
     leafImporters (recs ents [S "app"] o1) (run ents [S "app"] o1.noLimit) = true ∧
@@ -322,23 +325,40 @@ example : (run ents [S "app"] o1).nodes = [S "r.app", S "r", S "r.app.a", S "r.a
 example : nameWF [S "r", S "app", S "b", S "y", S "z"] = true ∧
     flattenNode (shiftedLimit o1 [S "app"]) (S "r.app.b.y.z") = S "r.app.b" := by decide
 
-/-! #### a dangling import: the converse direction fails without `danglingFree`
+/-! #### a dangling import (the defect repaired by `_is_import_between_known_modules`)
 
 `c.py` additionally does `import r.app.a.gone` (no such module: not a `.py` file, excluded, or a typo).  The full
-graph has no edge for it (the constructor requires both ends to be nodes), but with limit 1 the importee is cut to the
-existing package `r.app.a` and the edge `r.app.c → r.app.a` appears. -/
+graph has no edge for it (the constructor requires both ends to be nodes).  Before the repair, with limit 1 the importee
+was cut to the existing package `r.app.a` and the edge `r.app.c → r.app.a` appeared in the limited graph although it is
+the image of no import edge of the full graph.  Now the constructor checks the UNFLATTENED names against the known
+modules, and the limited graph has exactly the import edges of the quotient. -/
 def entsD : List Entry := ents.dropLast ++ [{ rel := [S "app", S "c.py"], isDir := false, stmts := [.imp [S "r.app.a.gone"]] }]
 
-set_option maxRecDepth 100000 in
-theorem dangling_facts :
-    generateGraph mt0 (S "/r") (S "r") [S "app"] entsD o1 = .ok (run entsD [S "app"] o1) ∧
-    generateGraph mt0 (S "/r") (S "r") [S "app"] entsD o1.noLimit = .ok (run entsD [S "app"] o1.noLimit) ∧
-    (S "r.app.c", S "r.app.a") ∈ (run entsD [S "app"] o1).importPairs ∧
-    (run entsD [S "app"] o1.noLimit).importPairs = [(S "r.app.a.x", S "r.app.b.y.z"), (S "r.app.b.y.z", S "r.app.c")] ∧
-    danglingFree (recs entsD [S "app"] o1) (run entsD [S "app"] o1.noLimit) = false := by
-  refine ⟨by rfl, by rfl, by decide, by decide, by decide⟩
+/-- the import edges of the quotient of `g0`: flattened import edges with distinct ends that are not parent→child pairs -/
+def quotientImports (L : Option Nat) (g0 : PGraph Str) : List (Str × Str) :=
+  (g0.importPairs.map fun p => (flattenNode L p.1, flattenNode L p.2)).filter fun p => p.1 != p.2 && !isHierPair p.1 p.2
 
 end ScanEx
+
+set_option maxRecDepth 100000 in
+/-- on the witness tree of the former counterexample (a dangling import `r.app.c → r.app.a.gone`, so `danglingFree`
+    fails) the limited graph now has exactly the quotient's import edges; in particular not `r.app.c → r.app.a` -/
+theorem scan_quotient_imports_dangling_fixed :
+    generateGraph ScanEx.mt0 (ScanEx.S "/r") (ScanEx.S "r") [ScanEx.S "app"] ScanEx.entsD ScanEx.o1 =
+      .ok (ScanEx.run ScanEx.entsD [ScanEx.S "app"] ScanEx.o1) ∧
+    generateGraph ScanEx.mt0 (ScanEx.S "/r") (ScanEx.S "r") [ScanEx.S "app"] ScanEx.entsD ScanEx.o1.noLimit =
+      .ok (ScanEx.run ScanEx.entsD [ScanEx.S "app"] ScanEx.o1.noLimit) ∧
+    danglingFree (ScanEx.recs ScanEx.entsD [ScanEx.S "app"] ScanEx.o1)
+      (ScanEx.run ScanEx.entsD [ScanEx.S "app"] ScanEx.o1.noLimit) = false ∧
+    (ScanEx.run ScanEx.entsD [ScanEx.S "app"] ScanEx.o1.noLimit).importPairs =
+      [(ScanEx.S "r.app.a.x", ScanEx.S "r.app.b.y.z"), (ScanEx.S "r.app.b.y.z", ScanEx.S "r.app.c")] ∧
+    (ScanEx.run ScanEx.entsD [ScanEx.S "app"] ScanEx.o1).importPairs =
+      [(ScanEx.S "r.app.a", ScanEx.S "r.app.b"), (ScanEx.S "r.app.b", ScanEx.S "r.app.c")] ∧
+    (ScanEx.run ScanEx.entsD [ScanEx.S "app"] ScanEx.o1).importPairs =
+      ScanEx.quotientImports (shiftedLimit ScanEx.o1 [ScanEx.S "app"])
+        (ScanEx.run ScanEx.entsD [ScanEx.S "app"] ScanEx.o1.noLimit) ∧
+    (ScanEx.S "r.app.c", ScanEx.S "r.app.a") ∉ (ScanEx.run ScanEx.entsD [ScanEx.S "app"] ScanEx.o1).importPairs := by
+  refine ⟨by rfl, by rfl, by decide, by decide, by decide, by decide, by decide⟩
 
 /-- the property text read as an equivalence on the scan graphs, without side condition -/
 def ScanQuotientImports_Statement : Prop :=
@@ -350,17 +370,11 @@ def ScanQuotientImports_Statement : Prop :=
       a ≠ b ∧ isHierPair a b = false ∧
       ∃ u v, (u, v) ∈ g0.importPairs ∧ a = flattenNode (shiftedLimit o mp) u ∧ b = flattenNode (shiftedLimit o mp) v
 
-/-- it is FALSE of the model (and of the library: `_create_edge` tests `has_node` AFTER flattening): the limited graph
-    has the edge `r.app.c → r.app.a`, which is the image of no import edge of the full graph -/
-theorem scanQuotientImports_counterexample : ¬ ScanQuotientImports_Statement := by
-  intro h
-  obtain ⟨h1, h2, h3, h4, -⟩ := ScanEx.dangling_facts
-  obtain ⟨-, -, u, v, huv, hu, hv⟩ := (h _ _ _ _ _ _ _ _ h1 h2 (ScanEx.S "r.app.c") (ScanEx.S "r.app.a")).1 h3
-  rw [h4] at huv
-  simp only [List.mem_cons, Prod.mk.injEq, List.not_mem_nil, or_false] at huv
-  rcases huv with ⟨rfl, rfl⟩ | ⟨rfl, rfl⟩
-  · exact absurd hu (by decide)
-  · exact absurd hu (by decide)
+/-- it HOLDS of the repaired model (it was false before the repair: `_create_edge` tests `has_node` AFTER flattening,
+    so a dangling import reappeared on the module its importee is truncated to) -/
+theorem scanQuotientImports : ScanQuotientImports_Statement :=
+  fun mt base rootName mp entries o g g0 hg hg0 a b =>
+    scan_quotient_imports mt base rootName mp entries o g g0 hg hg0 a b
 
 /-! #### a collision: `x.py` next to a directory `x`, limit 2
 
